@@ -1,0 +1,14 @@
+//go:build verif
+
+package profile
+
+// VerifGate, when set by a verification harness, is called at named
+// points inside critical sections so that interleavings can be forced.
+// It only exists in builds with the "verif" tag.
+var VerifGate func(point string)
+
+func verifGate(point string) {
+	if VerifGate != nil {
+		VerifGate(point)
+	}
+}
